@@ -72,6 +72,8 @@ def build(repo, spec_dir, canary=False):
                'regexp.rs::indent_regexp loop body: the `let` statements and the `if` that increments nesting_level', props=['C07'], extra_rules=rules,
                requires=['nesting_level0 < usize::MAX'],
                clauses=[Clause('indent.open_decided_by_the_line_without_colour', 'r == (if opens_plain(strip_sgr(line@), i) { (nesting_level0 + 1) as usize } else { nesting_level0 })', P)])
+    from units import sgrpatterns
+    sgrpatterns.emit(b, rx, P)
     b.emit('} // verus!\nfn main() {}')
     b.trusted += ['strip_sgr is uninterpreted: Regex::replace_all with the pattern %s removes exactly the colour codes component.rs writes (ESC [ n;n m and ESC [ 0 m); a line that does not start with ESC has nothing to strip when it is compared with the bare tokens' % SGR_LITERAL,
                   'only the two per-line decisions are under contract; the loop over lines(), the start-anchor adjustment, the skip of empty lines and the join are not (nesting_level stays below the number of lines, hence below usize::MAX)',
